@@ -159,6 +159,13 @@ def run(tier, seed, replay=None):
             allcases[1 % nproc].insert(0, {"id": 999200, "sources": 3, "seed": seed, "pre": [], "keys": ks, "dbs": dl,
                                           "cfg": {"scan_key_number": 2, "big_threshold": 10 ** 9, "key_exists": "none", "tdb": -1, "fdb_white": [], "fdb_black": [], "fkey_white": [],
                                                   "fkey_black": [], "key_file": False, "target_version": "5.0.7"}})
+        # a key file larger than the line reader's buffer (4 KiB): 600 names of 16 bytes
+        if not replay:
+            ks = [{"id": i + 1, "db": 0, "name": "kf%04d-%s" % (i, "abcdefgh"[i % 8] * 8), "kind": "string", "n": 1, "elem": 6, "ttl": 0, "vanish": "never", "scanned": True, "passes": True}
+                  for i in range(600)]
+            allcases[2 % nproc].insert(0, {"id": 999300, "seed": seed, "pre": [], "keys": ks, "dbs": [{"db": 0, "pages": [list(range(1, 601))]}],
+                                          "cfg": {"scan_key_number": 50, "big_threshold": 10 ** 9, "key_exists": "none", "tdb": -1, "fdb_white": [], "fdb_black": [], "fkey_white": [],
+                                                  "fkey_black": [], "key_file": True, "target_version": "5.0.7"}})
         # a rate limit well below the key count and a lull at the source: the run still has to end with every key copied
         if not replay:
             for j, (qps, nk) in enumerate([(4, 14)] + ([(3, 20), (5, 11)] if thorough else [])):
